@@ -167,6 +167,13 @@ func c19Exec(c *core.Ctx, cs c19Case) {
 				if m%3 == 0 {
 					env.Opts |= interp.NoUnset
 				}
+				if m%4 == 1 || ((m == 0 || m == 2) && ng) {
+					// hostile environment: invalid UTF-8 in IFS and in values
+					env.Set("IFS", "\xff,")
+					env.Set("x", "a\xff\xffb\xff")
+					env.Set("y", "\xff")
+					env.Args = append(env.Args, "\xffq\xff")
+				}
 				_, _ = env.Expand(w, interp.ExpMode(m))
 				c.Eval(1)
 			}
